@@ -21,7 +21,7 @@ NameSeq == <<"wk", "n1", "n2", "n3", "n4", "n5", "n6", "n7", "n8", "n9", "n10", 
              "n15", "n16", "n17", "n18", "n19", "n20">>
 TraceNames == {NameSeq[i] : i \in DOMAIN NameSeq}
 AnyRole == [c \in Sides |-> {"Socket", "BindNone", "BindAddr", "BindName", "Listen", "Accept", "Close", "RecvFrom",
-                             "Resolve", "ConnectName", "ConnectAddr", "SendTo", "Recv", "PeerFrmr"}]
+                             "Resolve", "ConnectName", "ConnectAddr", "SendTo", "Recv", "PeerFrmr", "DSend"}]
 AnyKind == [c \in Sides |-> <<>>]
 NoBound == [c \in Sides |-> 1000000]
 MiuAB == [c \in Sides |-> 128]          \* overridden per trace in TInit (const.miuA / const.miuB)
@@ -52,6 +52,7 @@ Guarded ==
     \/ IsEv("RecvFrom")    /\ RecvFrom(Ev.c, Ev.s)
     \/ IsEv("Recv")        /\ Recv(Ev.c, Ev.s)
     \/ IsEv("PeerFrmr")    /\ PeerFrmr(Ev.c, Ev.s)
+    \/ IsEv("DSend")       /\ DSend(Ev.c, Ev.s, Ev.m)
     \/ IsEv("Resolve")     /\ Resolve(Ev.c, Ev.n)
     \/ IsEv("Close")       /\ \E fx \in Fixes : CloseF(Ev.c, Ev.s, fx)
 
@@ -60,12 +61,13 @@ ResOk ==
     /\ last'.res = Ev.res
     /\ Ev.op = "Resolve" => (last'.val = Ev.val /\ last'.cached = Ev.cached)
     /\ Ev.op \in {"ConnectAddr", "ConnectName"} => last'.reach = Ev.reach
-    /\ Ev.op \in {"SendTo", "Accept"} => last'.got = Ev.got
+    /\ Ev.op \in {"SendTo", "Accept", "DSend"} => last'.got = Ev.got
+    /\ Ev.op = "Recv" => last'.m = Ev.m
     /\ Ev.op = "RecvFrom" => (last'.m = Ev.m /\ last'.a = Ev.a /\ last'.ln = Ev.ln)
 
 \* projection of one controller: what getsockname / the tables show
 ProjSock(k) == [kind |-> k.kind, addr |-> k.addr, st |-> k.st, peer |-> k.peer,
-                rq |-> [j \in DOMAIN k.rq |-> <<IF k.kind = "dlc" THEN 0 ELSE k.rq[j].m, k.rq[j].ssap, k.rq[j].len>>]]
+                rq |-> [j \in DOMAIN k.rq |-> <<IF k.st = "listen" THEN 0 ELSE k.rq[j].m, k.rq[j].ssap, k.rq[j].len>>]]
 \* sparse: <<address, socket ids>> of the occupied access points, <<name index, address>> of the known names
 Sparse(f, n, skip) == FoldLeft(LAMBDA acc, i : IF f[i] = skip THEN acc ELSE Append(acc, <<i, f[i]>>), <<>>, [i \in 1..n |-> i])
 ProjSide(x, c) == [sk   |-> [i \in DOMAIN x.sk[c] |-> ProjSock(x.sk[c][i])],
@@ -75,11 +77,12 @@ ProjSide(x, c) == [sk   |-> [i \in DOMAIN x.sk[c] |-> ProjSock(x.sk[c][i])],
 Proj(x) == [A |-> ProjSide(x, "A"), B |-> ProjSide(x, "B")]
 PostOk == Proj(w') = Ev.post
 
-InvNames == <<"OneAddrPerSocket", "NoDoubleAlloc", "RangesRespected", "FreedOnLastClose", "Datagram",
+InvNames == <<"LiveFirst", "OneAddrPerSocket", "NoDoubleAlloc", "RangesRespected", "FreedOnLastClose", "Datagram",
               "ResolveRight", "InUseRight", "ConnectByName", "DatagramStep", "Delivered">>
 \* state invariants are judged at the step that breaks them (P(w) => P(w')): a defect is reported where it
 \* happens (recorded in `fails`) and the rest of the history is still validated
-InvP(n) == CASE n = "OneAddrPerSocket" -> OneAddrPerSocketP(w) => OneAddrPerSocketP(w')
+InvP(n) == CASE n = "LiveFirst"        -> LiveFirstP(w) => LiveFirstP(w')
+             [] n = "OneAddrPerSocket" -> OneAddrPerSocketP(w) => OneAddrPerSocketP(w')
              [] n = "NoDoubleAlloc"    -> NoDoubleAllocP(w) => NoDoubleAllocP(w')
              [] n = "RangesRespected"  -> RangesRespectedP(w) => RangesRespectedP(w')
              [] n = "FreedOnLastClose" -> FreedOnLastCloseP(w) => FreedOnLastCloseP(w')
@@ -102,10 +105,15 @@ Real == Conforms /\ fails' = IF AllInv THEN fails ELSE Append(fails, <<l, Ev.op,
 RT_ClosedGone(P)  == \A i \in DOMAIN P.sap : \A j \in DOMAIN P.sap[i][2] : P.sk[P.sap[i][2][j]].st # "shut"
 RT_NoEmptyAp(P)   == \A i \in DOMAIN P.sap : P.sap[i][2] # <<>>
 RT_NamesLive(P)   == \A i \in DOMAIN P.snl : \E j \in DOMAIN P.sap : P.sap[j][1] = P.snl[i][2] + 1 /\ P.sap[j][2] # <<>>
-RealNames == <<"ClosedSocketInAccessPoint", "AccessPointWithoutSockets", "NameOfRemovedAccessPoint">>
+\* no socket that is not ESTABLISHED stands before an ESTABLISHED one with the same (or no) peer: it would take its PDUs
+RT_LiveFirst(P)   == \A a \in DOMAIN P.sap : \A i, j \in DOMAIN P.sap[a][2] :
+                        LET u == P.sk[P.sap[a][2][i]]  v == P.sk[P.sap[a][2][j]] IN
+                        ~(i < j /\ u.kind = "dlc" /\ u.st # "conn" /\ v.st = "conn" /\ u.peer \in {NoAddr, v.peer})
+RealNames == <<"ClosedSocketInAccessPoint", "AccessPointWithoutSockets", "NameOfRemovedAccessPoint", "StaleSocketBeforeLiveConnection">>
 RealP(n, P) == CASE n = "ClosedSocketInAccessPoint" -> RT_ClosedGone(P)
                  [] n = "AccessPointWithoutSockets" -> RT_NoEmptyAp(P)
                  [] n = "NameOfRemovedAccessPoint"  -> RT_NamesLive(P)
+                 [] n = "StaleSocketBeforeLiveConnection" -> RT_LiveFirst(P)
 BrokenReal == SelectSeq(RealNames, LAMBDA n : ~(RealP(n, Ev.post.A) /\ RealP(n, Ev.post.B)))
 
 \* --- diagnosis -------------------------------------------------------------------------------
